@@ -5,7 +5,8 @@
    * "passes" is a THEOREM for validated codecs whose encoder does not assign members (empty store
      table: Rust &self, C++ const, and any Go / Java / Python program without length-of / checksum
      store-backs): C17_validated_selftest_passes below, with its guard shown necessary by
-     C17_nested_checksum_refuted.
+     C17_nested_checksum_refuted; and, for ANY store table, for every test that does not reach a
+     packet with store-backs: C17_validated_selftest_passes_quiet (at the end).
    * For Go, Java and Python encoders that DO store computed members back, the verdict is computed
      by evaluation (vm_compute of selftest on the sample each emitted test builds).  What a proof
      would need in addition: the exact value a validated decoder returns for a length-of /
@@ -105,3 +106,44 @@ Theorem C17_nested_checksum_refuted :
   selftest false rf_M rf_O [] [] [] "P" rf_v = TPass.
 Proof. exact nested_checksum_refuted. Qed.
 Print Assumptions C17_nested_checksum_refuted.
+
+(* ---- any language, any store table the test does not reach ----
+   [quiet O S fuel0 path v] (Tests/Quiet.v, boolean, evaluated by the harness for every unit)
+   follows the emitted encoder through the sample and checks that no packet it visits has a
+   store-back.  Then the store table is irrelevant (the object-returning encoder is sem_enc and
+   leaves the sample unchanged) and the theorem above holds verbatim: this covers the Go, Java and
+   Python tests of every packet that has no computed member itself or below it.  What remains
+   unproved are the tests that DO execute a store-back (the root packets with length-of /
+   checksum members in Go, Java, Python): see the header. *)
+From FP Require Import Quiet SelfTestQuiet.
+
+Theorem C17_store_table_irrelevant_when_quiet :
+  forall cs P S fuel name v buf,
+    quiet P S fuel name v = true ->
+    enc_mut cs P S fuel name v buf = lift (sem_enc cs P fuel name v buf) v.
+Proof. exact enc_mut_quiet. Qed.
+Print Assumptions C17_store_table_irrelevant_when_quiet.
+
+Theorem C17_validated_selftest_passes_quiet :
+  forall reg M O St eqs post path p v,
+    validate_enc M O = true -> validate_dec_full M O = true ->
+    In (path, p) (all_packets M) ->
+    typed M fuel0 p v = true ->
+    layout_defined reg M path v = true ->
+    eqs_ok M eqs = true ->
+    post_ok reg p post = true ->
+    no_nested_computed reg M p = true ->
+    quiet O St fuel0 path v = true ->
+    selftest reg M O St eqs post path v = TPass.
+Proof. exact validated_selftest_passes_quiet. Qed.
+Print Assumptions C17_validated_selftest_passes_quiet.
+
+(* not vacuous: with a store table for "Msg", the test of "Inner" is quiet (and passes by the
+   theorem), the test of "Msg" is not *)
+Example C17_quiet_instance :
+  quiet ex_O exq_S fuel0 "Inner" exq_inner_v = true /\ quiet ex_O exq_S fuel0 "Msg" ex_v = false /\
+  selftest true ex_M ex_O exq_S [] [] "Inner" exq_inner_v = TPass.
+Proof.
+  destruct exq_hypotheses as [_ [_ [_ [_ [_ [Hq Hn]]]]]]. split; [exact Hq|]. split; [exact Hn|]. exact exq_passes.
+Qed.
+Print Assumptions C17_quiet_instance.
